@@ -71,6 +71,16 @@ Theorem C02_size_only_fails_on_zero :
 Proof. exact solve_root_only_zero_division. Qed.
 Print Assumptions C02_size_only_fails_on_zero.
 
+(* bi-zoned / polygon-constrained searches (BisectionZD): when no field of the chosen list meets the limits, the field returned by that
+   list's own search is kept — which, by C02_unmet_too_large / C02_escape_only_when_unmet on that search, is the largest allowed
+   candidate and exists only if the user asked to continue — and every candidate it evaluated at maximum height fails *)
+Theorem C02_ZD_escape_keeps_the_inner_selection :
+  forall nested cap cont it e drill z, searchZD nested cap cont it e drill = Ok z -> zd_escaped z = true ->
+  exists o, search1d (nthZ nested (zd_outer z)) cap cont it (e (zd_outer z)) = Ok o /\ zd_sel z = sel o /\
+            forall k v, In (k, v) (calc_out o) -> (0 < v)%Q.
+Proof. exact searchZD_escape. Qed.
+Print Assumptions C02_ZD_escape_keeps_the_inner_selection.
+
 (* ---- the RowWise design search (Model/RowSearch.rw_search, tied to RowWiseModifiedBisectionSearch.search by the stub-oracle
    correspondence of this check): for EVERY generator / excess / sizing oracle, spacing window, step and iteration limit *)
 Theorem C02_rowwise_only_value_error :
